@@ -317,8 +317,14 @@ func vMs(m map[string]string, k string, def int) time.Duration {
 	return time.Duration(def) * time.Millisecond
 }
 
+// vNomAttr: the nomination attribute type of the current session (reset by `new` for agent A)
+var vNomAttr = stun.AttrType(DefaultNominationAttribute)
+
 func (s *vSession) newAgent(letter, cfg string) (*vAgentH, error) {
 	m := vKvs(cfg)
+	if letter == "A" {
+		vNomAttr = stun.AttrType(DefaultNominationAttribute)
+	}
 	max := uint16(7)
 	if v, ok := m["max"]; ok {
 		n, _ := strconv.Atoi(v)
@@ -362,10 +368,22 @@ func (s *vSession) newAgent(letter, cfg string) (*vAgentH, error) {
 		}
 		c.RemoteIPFilter = func(ip net.IP) bool {
 			ap, _ := netip.AddrFromSlice(ip)
+			// like a deny-list of IPv4 prefixes, the filter knows the blocked addresses in their plain form only: the agent
+			// has to hand it the unmapped address (as parseAddr does) whatever literal the peer signalled
+			if ap.Is4In6() {
+				return true
+			}
 			return !blocked[vAddrID(netip.AddrPortFrom(ap, 5000))/16]
 		}
 	}
 	var opts []AgentOption
+	if m["na"] == "1" {
+		// both agents of the session (and the harness's own encoder / decoder) use a custom nomination attribute type
+		vNomAttr = stun.AttrType(0x0030)
+	}
+	if vNomAttr != DefaultNominationAttribute {
+		opts = append(opts, WithNominationAttribute(uint16(vNomAttr)))
+	}
 	if m["renom"] == "1" {
 		opts = append(opts, WithRenomination(func() uint32 { return 0 }))
 	}
@@ -542,7 +560,7 @@ func (s *vSession) buildMsg(spec string) ([]byte, error) {
 	}
 	if v, ok := m["nom"]; ok && v != "-" {
 		n, _ := strconv.ParseUint(v, 10, 32)
-		setters = append(setters, NominationSetter{Value: uint32(n), AttrType: DefaultNominationAttribute})
+		setters = append(setters, NominationSetter{Value: uint32(n), AttrType: vNomAttr})
 	}
 	if v, ok := m["err"]; ok && v != "-" {
 		n, _ := strconv.Atoi(v)
@@ -644,7 +662,7 @@ func (s *vSession) describe(h *vAgentH, d vDgram) string {
 		}
 		nom := "-"
 		var na NominationAttribute
-		if na.GetFromWithType(m, DefaultNominationAttribute) == nil {
+		if na.GetFromWithType(m, vNomAttr) == nil {
 			nom = fmt.Sprint(na.Value)
 		}
 		uc := 0
